@@ -68,6 +68,26 @@ def record_kaiser(spec):
                     rel = max(pv / pk for pv, pk in zip(powers(r), p0))
                     cdb = int(math.ceil(1000 * math.log10(max(rel, 1e-40))))      # centi-dB, rounded up
                     ev.append({"t": "leak", "psll": int(P), "L": int(L), "off100": int(abs(off) * 100), "cdb": cdb, "odd": int(L % 2)})
+        # the full compute() path with progress reporting switched on: every bin's window must be the one requested
+        if spec.get("mode", "auto") != "csd":
+            for P in spec["pslls"][:2]:
+                xx = rng.standard_normal(1200)
+                a = speckit.SpectrumAnalyzer(xx, 1.0, win="kaiser", psll=P, order=0, olap=0.5, backend=spec["backend"], Jdes=12, Kdes=4,
+                                             scheduler="ltf", verbose=True)
+                calls.clear()
+                r = a.compute()
+                Ls = [int(v) for v in r.L]
+                for (M, beta) in list(calls):
+                    w = real(M, beta)[:-1]
+                    Lw = len(w)
+                    js = [j for j, Lj in enumerate(Ls) if Lj == M - 1]
+                    sym = float(np.max(np.abs(w[1:] - w[1:][::-1]))) if Lw > 2 else 0.0
+                    peak = 1 if (Lw % 2 == 1 or (abs(w[Lw // 2] - 1.0) < 1e-12 and w[Lw // 2] >= w.max() - 1e-15)) else 0
+                    wl = Lw
+                    if js and float(np.sum(w)) > 0:
+                        wl = int(round(float(r.S12[js[0]]) ** 0.5 / float(np.sum(w)) * Lw))
+                    ev.append({"t": "call", "psll": int(P), "L": int(M - 1), "M": int(M), "qbeta": traces.q(beta), "qalpha": traces.q(float(a.config["alpha"])),
+                               "wlen": wl, "sym": traces.q(sym, 2 ** 30), "peak": peak if Lw > 2 else 1, "rise": int(w[0] < w[1]) if Lw > 2 else 1})
     finally:
         analysis.np_kaiser = real
     return {"meta": dict(spec), "c": {}, "ev": ev}
